@@ -340,6 +340,9 @@ func runC01(c *core.Ctx, o Options) {
 	// L2: the length function and the assembly read the message; they (and what they call) never write it
 	checkReadOnly(c, "L2", cbl, bwc, ccs)
 	c.Explanation += " L2 also requires that CalcBodyLength, BytesWithoutChecksum and CalcCheckSum — with everything of the module they can call, interface calls resolved through the call graph — store nothing outside their own locals, and that nothing called between the length computation and the assembly does: the message that is assembled is the message that was measured."
+	// S4 (premise): the BodyLength value Prepare stamps is an object of this message — constructors hand out fresh objects
+	checkFreshConstructors(c, "S4")
+	c.Explanation += " S4 also: every New* constructor of package fix returns an object allocated in the call and reads no package-level state (a flyweight Int shared between messages lets one message's BodyLength be rewritten by another's decode)."
 	c.RuleMin = map[string]int{"L1": 6, "L2": 11, "L3": 2, "L4": 3, "S1": 2, "S2": 8, "S4": 2}
 	c.MinObl = 30
 }
